@@ -798,6 +798,16 @@ func (db *Default) ProfileByHumanID(
 		return nil, nil, fmt.Errorf("%s: rechecking human id: %w", errPrefix, ErrDeviceNotFound)
 	}
 
+	if p.ID != id {
+		// Perhaps, the device has been moved to another profile.  The pair of
+		// the requested profile ID and the human ID does not identify it any
+		// more, so remove the link from our profile DB in a goroutine, since
+		// that requires a write lock.
+		go db.removeHumanID(ctx, k)
+
+		return nil, nil, fmt.Errorf("%s: rechecking profile id: %w", errPrefix, ErrDeviceNotFound)
+	}
+
 	return p, d, nil
 }
 
